@@ -103,3 +103,10 @@ def fill(check, na):
           "frame sizes, codecs, RTX and sequence/timestamp origins (incl. wrap) are sampled.",
           "DTLS/SRTP bypassed (C04 covers them); decoder thread replaced by a synchronous tap; virtual time.",
           "DESIGN.md 3/C11")
+    check("C04", "specification predicate + delivery monitors on real RTCDtlsTransport pairs (real OpenSSL handshake and SRTP): connect-iff-verified over the class-reduced fingerprint matrix, recording receivers registered before start(), uid traffic and bit-flip tampering for every SRTP profile list x role cell",
+          "Held on the handshakes executed: a side reached 'connected' exactly when its fingerprint list verifies the peer "
+          "(harness-side predicate), nothing was delivered on a side that was not connected, and for every SRTP profile / role "
+          "cell all RTP, RTCP and data units arrived byte-identical while nothing altered in transit was delivered. The "
+          "class-reduced matrices are enumerated across a run; payloads and bit positions are sampled.",
+          "OpenSSL / pyOpenSSL / libsrtp trusted; in-memory ICE stand-in without loss during the handshake.",
+          "DESIGN.md 3/C04")
